@@ -97,6 +97,10 @@ namespace {
         void writeSuppr(const SuppressionList &supprs) const {
             for (const auto& suppr : supprs.getSuppressions())
             {
+                // the hash is not part of the transferred string: the parent would add a second, hash-less suppression.
+                // The state of such a suppression is not needed - it is never reported as unmatched.
+                if (suppr.hash > 0)
+                    continue;
                 if (suppr.isInline)
                     writeToPipe(REPORT_SUPPR_INLINE, suppressionToString(suppr));
                 else if (suppr.checked)
